@@ -25,7 +25,7 @@ Fail(what, c, info) ==
 BadNF(c) == {Universe[i].id : i \in {j \in DOMAIN Universe :
                 LET r == Eval3(c.ast, Universe[j]) h == NFHolds(c.nf, Universe[j]) IN ~((r[1] => h) /\ (h => r[2]))}}
 
-RunOK(c, r) == r.err = "" /\ ResultAllowed(Pops[r.layout + 1].files, c.ast, r.sort, r.limit, r.skip, r.res, r.more)
+RunOK(c, r) == r.err = "" /\ ResultAllowed(Pops[r.layout + 1].files, c.ast, r.sort, r.limit, r.skip, Range(r.ids), r.res, r.more)
 
 CheckCase(c) ==
     IF c.hang THEN Fail("parse-hang", c, "")                           \* C14's matter; skipped here
